@@ -508,7 +508,12 @@ impl Deb822 {
                 }
                 i
             }
-            None => self.0.children().count(),
+            None => {
+                // The blank line added in front of the new paragraph must not
+                // double as the terminator of an unterminated last line.
+                terminate_last_line(&self.0);
+                self.0.children().count()
+            }
         };
         self.0
             .splice_children(insertion_point..insertion_point, to_insert);
@@ -599,6 +604,24 @@ impl Deb822 {
         let mut buf = String::new();
         r.read_to_string(&mut buf)?;
         Ok(Self::from_str_relaxed(&buf))
+    }
+}
+
+/// If the last token below `node` is not a newline, append one next to it.
+fn terminate_last_line(node: &SyntaxNode) {
+    if let Some(last) = node.last_token() {
+        if last.kind() != NEWLINE {
+            let mut builder = GreenNodeBuilder::new();
+            builder.start_node(ENTRY.into());
+            builder.token(NEWLINE.into(), "\n");
+            builder.finish_node();
+            let newline = SyntaxNode::new_root_mut(builder.finish())
+                .first_token()
+                .unwrap();
+            let parent = last.parent().unwrap();
+            let count = parent.children_with_tokens().count();
+            parent.splice_children(count..count, vec![newline.into()]);
+        }
     }
 }
 
@@ -823,20 +846,7 @@ impl Paragraph {
     /// Make sure the last line of the paragraph ends with a newline, so that
     /// an entry appended after it starts on a line of its own.
     fn terminate_last_line(&mut self) {
-        if let Some(last) = self.0.last_token() {
-            if last.kind() != NEWLINE {
-                let mut builder = GreenNodeBuilder::new();
-                builder.start_node(ENTRY.into());
-                builder.token(NEWLINE.into(), "\n");
-                builder.finish_node();
-                let newline = SyntaxNode::new_root_mut(builder.finish())
-                    .first_token()
-                    .unwrap();
-                let parent = last.parent().unwrap();
-                let count = parent.children_with_tokens().count();
-                parent.splice_children(count..count, vec![newline.into()]);
-            }
-        }
+        terminate_last_line(&self.0);
     }
 
     /// Insert a new field
